@@ -77,6 +77,7 @@ inline std::istream& operator>>(std::istream &in, type &p)
 {
     std::string val;
     in >> val;
+    amgcl::detail::reject_trailing_text(in, val);
 
     if (val == "amg")
         p = amg;
